@@ -134,7 +134,7 @@ Definition ds_set_axis (r : axref) (k : kind) (labs : list label) (name : option
   | Ok id =>
       let ax := hget (heap s) id in
       if negb (List.length labs =? alen ax) then (s, Err ValueError) else
-      let ax' := {| aname := aname ax; akind := cast_kind (akind ax) k; alab := labs; aattrs := aattrs ax; amem := amem ax |} in
+      let ax' := {| aname := aname ax; akind := norm_axis_kind k; alab := labs; aattrs := aattrs ax; amem := amem ax |} in
       let s' := with_heap s (hset (heap s) id ax') in
       match name with
       | None => (s', Ok tt)
